@@ -35,6 +35,13 @@ def run(chk):
     per = chk.pick(125, 6250)                    # per shard; 16 shards -> 2000 / 100000 interleavings
     r5 = chk.run('dbg5', e5, per, timeout=3000)
     r4 = chk.run('dbg4-macros', e4, per, timeout=3000)
+    # the same interleavings without ASan: glibc's realloc resizes in place (ASan's always moves the block), so the
+    # "record updated although the address did not change" path of the tracker is only reachable here
+    ep = build('plain-dbg5')
+    rp = chk.run('plain-dbg5', ep, per, timeout=3000)
+    chk.cov['realloc_same_address_observed_without_asan'] = max(0, rp.counts.get('realloc_tracked', 0) + rp.counts.get('realloc_null_allocates', 0) - rp.counts.get('realloc_moved', 0))
+    if chk.cov['realloc_same_address_observed_without_asan'] < 50 and not rp.violations:
+        chk.inconclusive.append('fewer than 50 in-place reallocs observed in the non-ASan build')
     # differential oracle: same macro programs, same visible semantics with tracking compiled in and out
     common = sorted(set(r5.digests) & set(r4.digests))
     ndiff = 0
@@ -54,6 +61,13 @@ def run(chk):
                 chk.add_violation('macro-semantics:tracking-on-vs-off',
                                   'case %d: the same MALLOC/CALLOC/REALLOC/STRDUP/FREE program has different visible results (NULL-ness of results / FREE nulling / '
                                   'heap balance) in the DEBUG 5 and DEBUG 4 builds: digest %s vs %s; %s' % (idx, r5.digests[idx], r4.digests[idx], where))
+    # second population of DESIGN §4 C15: the C06 object programs (strings, buffers, pairs, tokenizers, URLs, containers, iterators,
+    # split/join arrays) on the tracking build at runtime level 5 -- the tracker must list nothing once the program has deleted all it owned
+    eo = vf.build_harness('c06', 'asan-dbg5', ['c06.c'], ldflags=['-rdynamic'])
+    ro = chk.run('object-programs-dbg5', eo, chk.pick(60, 2000), timeout=3000)
+    chk.cov['object_programs_with_empty_tracker_table'] = ro.counts.get('tracker_empty_after_program', 0)
+    if ro.counts.get('tracker_empty_after_program', 0) < 500 and not ro.violations:
+        chk.inconclusive.append('fewer than 500 object programs reached the tracker-empty monitor')
     chk.cov['macro_programs_compared'] = len(common)
     chk.cov['macro_programs_differing'] = ndiff
     chk.cov['evaluations_extra'] = len(common)
